@@ -198,6 +198,19 @@ def dict_get(ip, st, d, k, default, strict=False):
         if strict:
             _raise(KeyError, "key")
         return default
+    if getattr(k, "is_text", False) and d and all(isinstance(kk, (bytes if k.kind == "bytes" else str)) for kk in d):
+        # a modelled bytes / str as the key of a dict of distinct constants of the same kind: equality with each key
+        # (mutually exclusive because the constants are distinct); hash equality follows value equality for bytes / str
+        from .text import text_eq
+
+        keys = list(d)
+        hits = [text_eq(k, kk) for kk in keys]
+        idx = st.choose(hits + [both(*[neg(h) for h in hits])])
+        if idx < len(keys):
+            return d[keys[idx]]
+        if strict:
+            _raise(KeyError, "key")
+        return default
     raise Unsupported(f"dict lookup with key {type(k).__name__}")
 
 
@@ -493,6 +506,20 @@ def call_method(ip, st, recv, name, args, kwargs):
             if len(args) > 1:
                 return args[1]
             _raise(KeyError, repr(k))
+    if getattr(recv, "is_text", False):
+        # contract-file hook `text_method(ip, st, recv, name, args, kwargs)`: a method of a modelled text that only this
+        # contract models (e.g. str.encode with the abstract target encoding); NotImplemented falls through
+        h = getattr(getattr(ip.task, "c", None), "text_method", None)
+        if h is not None:
+            r = h(ip, st, recv, name, args, kwargs)
+            if r is not NotImplemented:
+                return r
+        # startswith / split / lstrip / partition / decode with an error handler: pyvc/textops.py
+        from .textops import text_method as _tm
+
+        r = _tm(ip, st, recv, name, args, kwargs)
+        if r is not NotImplemented:
+            return r
     if getattr(recv, "is_text", False) and name == "encode" and recv.kind == "str":
         from .text import utf8_encoded
 
@@ -755,6 +782,10 @@ def b_int(ip, st, x=0, base=None):
         return x.py_int(ip, st)  # int(<modelled str>): the model decides (value / ValueError)
     if x is None:
         _raise(TypeError, "int() argument must be a string, a bytes-like object or a real number, not 'NoneType'")
+    if getattr(x, "is_text", False):
+        from .textops import text_int
+
+        return text_int(st, x)  # int(<bytes / str text>): a value or ValueError (pyvc/textops.py)
     if isinstance(x, Sym):
         raise Unsupported(f"int() of {type(x).__name__}")
     try:
@@ -1257,6 +1288,16 @@ TABLE = {
 }
 
 
+def _install_textops():
+    from .textops import b_bytearray, b_bytes
+
+    TABLE[bytes] = b_bytes  # bytes([ints]) with symbolic items; everything concrete stays CPython's own bytes()
+    TABLE[bytearray] = b_bytearray
+
+
+_install_textops()
+
+
 def call_builtin(ip, st, f, args, kwargs):
     impl = TABLE.get(f) if isinstance(f, (type, types.BuiltinFunctionType, types.FunctionType)) else None
     if impl is not None:
@@ -1295,6 +1336,10 @@ def call_builtin(ip, st, f, args, kwargs):
                 ref = None
             if ref is not None:
                 return ip.call_fnval(st, FnVal(ref), args, kwargs)
+    if isinstance(f, types.FunctionType) and f.__name__ == "<lambda>":
+        fv = real_lambda(ip, st, f)
+        if fv is not None:
+            return ip.call_fnval(st, fv, args, kwargs)
     if isinstance(f, types.MethodType):
         raise Unsupported(f"call of bound real method {f!r}")
     # "sep".join(list) where the list has a concrete length and concrete str items on this path: CPython's own join
@@ -1352,6 +1397,41 @@ def namedtuple_new(cls, args, kwargs):
                 _raise(TypeError, f"{cls.__name__}() missing required argument {k!r}")
             vals[k] = defaults[k]
     return NTuple(cls, [vals[k] for k in fields])
+def real_lambda(ip, st, f):
+    """A real `lambda` object of a repository module that was created at module level and stored in data (e.g. the
+    callbacks in vterm.CSI_COMMANDS): the FnVal of its AST, or None.  CPython records where the lambda's code starts
+    (`__code__.co_firstlineno`, and since 3.11 the column in `co_positions()`); the AST node is the `ast.Lambda` of
+    the module at that position with the same parameter names.  Only closure-free lambdas without defaults whose
+    globals are the module's (module-level definitions) are accepted: their free names are then module globals,
+    which is how the interpreter resolves them.  Ambiguity (two candidates) -> None (the call stays Unsupported).
+    Cross-check against CPython: contracts/C15_parser.py static check `real-lambdas-map-to-their-ast`."""
+    import ast
+
+    from . import source as SRC
+    from .interp import FnVal, Frame
+
+    m = SRC.module_of_real(getattr(f, "__module__", "") or "")
+    if m is None or f.__closure__ or f.__defaults__ or f.__kwdefaults__ or f.__globals__ is not m.real.__dict__:
+        return None
+    code = f.__code__
+    names = list(code.co_varnames[: code.co_argcount])
+    col = None
+    try:
+        pos = next(iter(code.co_positions()), None)
+        # (the first instruction of a lambda's code is RESUME, positioned at the lambda expression itself)
+        col = pos[2] if pos and pos[0] == code.co_firstlineno else None
+    except Exception:  # noqa: BLE001
+        col = None
+    cands = [n for n in ast.walk(m.tree) if isinstance(n, ast.Lambda) and n.lineno == code.co_firstlineno and [a.arg for a in n.args.posonlyargs + n.args.args] == names
+             and not n.args.vararg and not n.args.kwarg and not n.args.kwonlyargs and not n.args.defaults]
+    if len(cands) > 1 and col is not None:
+        cands = [n for n in cands if n.col_offset == col]
+    if len(cands) != 1:
+        return None
+    fv = ip.e_Lambda(st, cands[0], Frame(None, m))
+    fv.ref.qualname = f"<lambda@{cands[0].lineno}>"
+    fv.closure = Frame(None, m)
+    return fv
 
 
 def _native_ok(f, args):
